@@ -676,6 +676,42 @@ def count_mut(seed, family, thorough):
     return sum(1 for _ in mutations(seed, family, thorough))
 
 
+def biglen_case(env, k, st):
+    from ..lib import sparse
+    L, c = env.L, env.L.ctx
+    S = env.seeds
+    mn, mx = c_uint64(0), c_uint64(0)
+    xs, msgs, sigs, n = env.ha_meta[-1]
+    cm, extra = env.rp_meta[1]
+    sz = L.verif_sizeof(10)
+    jobs = [
+        ("parse_der", S["der"][0], lambda a, ln: L.ecdsa_signature_parse_der(c, buf(64), c_void_p(a), ln)),
+        ("ec_pubkey_parse(33)", S["pubkey"][0], lambda a, ln: L.ec_pubkey_parse(c, buf(64), c_void_p(a), ln)),
+        ("ec_pubkey_parse(65)", S["pubkey"][1], lambda a, ln: L.ec_pubkey_parse(c, buf(64), c_void_p(a), ln)),
+        ("surjectionproof_parse", S["surjection"][0], lambda a, ln: L.surjectionproof_parse(c, exact(b"\x00" * sz), c_void_p(a), ln)),
+        ("whitelist_signature_parse", S["whitelist"][0], lambda a, ln: L.whitelist_signature_parse(c, exact(b"\x00" * L.verif_sizeof(11)), c_void_p(a), ln)),
+        ("schnorrsig_aggverify", S["halfagg"][-1], lambda a, ln: L.schnorrsig_aggverify(c, xs, msgs if n else None, n, c_void_p(a), ln)),
+        ("rangeproof_verify", S["rangeproof"][1], lambda a, ln: L.rangeproof_verify(c, byref(mn), byref(mx), cm, c_void_p(a), ln, extra if extra else None, len(extra), env.gen)),
+    ]
+    for name, seed, fn in jobs:
+        total = len(seed) + k * 2**32
+        try:
+            addr = sparse(seed, total)
+        except (OSError, MemoryError, ValueError, OverflowError):
+            st.count("sparse-mapping-unavailable")
+            continue
+        r = fn(addr, total)
+        st.calls += 1
+        st.count("biglen-%s" % name)
+        st.nt((name, k))
+        if r != 0:
+            st.fail("%s accepted a valid artefact followed by %d * 2^32 trailing bytes (declared length %d)" % (name, k, total), {"cfg": L.config, "entry": name, "k": k})
+        if L.illegal or L.errors:
+            st.fail("%s: callback fired for a declared length of %d" % (name, total), {"cfg": L.config, "entry": name})
+            L.cb_reset()
+    st.sample({"k": k, "entry_points": [j[0] for j in jobs]})
+
+
 def main():
     a = args()
     run = Run(PID, a.tier, level="fault_enumeration")
@@ -704,6 +740,8 @@ def main():
                         cases.append((target, si, fam, thorough, lo, min(lo + step, total)))
         run_phase(run, "%s/mutations" % cfg, mut_case, cases, setup=setup(cfg),
                   rule="targets: %s; seeds made by the library's own provers; mutation alphabet applied singly to every seed: as-is, every single-bit flip, every truncation length, extension by 1/2/31/32/33 bytes of 00/FF, each of the first 4 bytes set to all 256 values (two-byte count: all 65536), every 32-byte slot at aligned offsets <- {0,1,n-1,n,n+1,p-1,p,p+1,2^256-1}, all-00/FF/80 strings of every length 0..len+64, header byte pairs; inputs live in exactly-sized malloc blocks; oracle: no sanitizer/VERIFY abort, no callback, return in {0,1}, ledger balanced, watchdog; parsed objects are chained into every consumer of their type; non-trivial = mutated input still accepted by its parser/verifier" % ", ".join(sorted(env0.targets)))
+        run_phase(run, "%s/lengths-above-bit-31" % cfg, biglen_case, [1, 2], setup=setup(cfg), nproc=2,
+                  rule="every parser that takes a byte length, given a VALID artefact at the start of a never-reserved mapping of len + k*2^32 bytes (k = 1, 2) and that size as the declared length (every covered byte is readable): the trailing bytes must be refused exactly as a few trailing bytes are - a length kept in a 32-bit variable would not see them; skipped (never a verdict) if the mapping cannot be made")
         if run.out_of_time():
             run.cov["exhaustive"] = False
             break
